@@ -739,7 +739,7 @@ def execute(run, case):
     try:
         os.environ['TZ'] = case['tz']
         time.tzset()
-        _execute(run, case, d)
+        return _execute(run, case, d)
     finally:
         if old_tz is None:
             os.environ.pop('TZ', None)
